@@ -112,8 +112,10 @@ def run(ctx, cases_override=None):
             ol.append("%s o.spmv_same %s %s" % (sp[0], sp[3], vtok(items[-1]))); byid[sp[0]] = l
     fails += oracle_run(ctx, ol, "C13: block formulation represents the same operator: block spmv = scalar spmv of the source matrix", lambda cid: byid[cid])
     fails += run_cplx_solve(ctx, complex_solve_cases(tier, seed))
-    # ---- W: wrappers
-    fails += run_wrappers(ctx, wrapper_cases(tier, seed))
+    # ---- W: wrappers (skipped when the adapter stage already failed: with a broken block adapter
+    # the exact CG runs do not terminate early and only cost time; the failing input is already found)
+    if not fails:
+        fails += run_wrappers(ctx, wrapper_cases(tier, seed))
     # ---- M: mixed precision (tested)
     fails += run_mixed(ctx, mixed_cases(tier))
     return fails
